@@ -374,14 +374,68 @@ def normalizer(repo):
     return _one([c for c in repo.all_classes() if ok(c)], "type normaliser (callable class with register_generic)")
 
 
+class Registered(tuple):
+    """(handler function, generic expression) with `.bindings`: closure variables of a factory-made handler -> expr."""
+
+    def __new__(cls, f, g, bindings=None):
+        o = super().__new__(cls, (f, g))
+        o.bindings = bindings or {}
+        return o
+
+
+def _subst_names(e, env):
+    class T(ast.NodeTransformer):
+        def visit_Name(self, n):
+            return env.get(n.id, n)
+
+    import copy
+
+    return T().visit(copy.deepcopy(e))
+
+
 @_memo
 def generic_handlers(repo):
-    """Functions decorated with <normaliser instance>.register_generic(X) -> list of (func, generic expr)."""
+    """Functions registered as handlers of a generic with <normaliser instance>.register_generic: as a decorator
+    `@x.register_generic(G)`, or by a module-level call `x.register_generic(G, handler)` - possibly in a loop over a
+    literal tuple of tuples, the handler possibly made by a factory function of the module (`factory(V)` returning an
+    inner function) -> list of (func, generic expr) with `.bindings`."""
     out = []
     for f in repo.all_funcs():
         for d in f.node.decorator_list:
             if isinstance(d, ast.Call) and isinstance(d.func, ast.Attribute) and d.func.attr == "register_generic" and d.args:
-                out.append((f, d.args[0]))
+                out.append(Registered(f, d.args[0]))
+
+    def direct(mod, call, env):
+        if not (isinstance(call, ast.Call) and isinstance(call.func, ast.Attribute) and call.func.attr == "register_generic" and len(call.args) == 2):
+            return
+        g, h = _subst_names(call.args[0], env), _subst_names(call.args[1], env)
+        if isinstance(h, ast.Name) and h.id in mod.funcs:
+            out.append(Registered(mod.funcs[h.id], g))
+        elif isinstance(h, ast.Call) and isinstance(h.func, ast.Name) and h.func.id in mod.funcs and not h.keywords:
+            fac = mod.funcs[h.func.id]
+            rets = [r.value for r in ast.walk(fac.node) if isinstance(r, ast.Return) and isinstance(r.value, ast.Name)]
+            inner = fac.children.get(rets[0].id) if len(rets) == 1 else None
+            if inner is None or len(h.args) != len(fac.params):
+                raise AnalysisError(f"anchor 'generic handlers': cannot tell which function `{ast.unparse(h)}` registers")
+            out.append(Registered(inner, g, dict(zip(fac.params, h.args))))
+        else:
+            raise AnalysisError(f"anchor 'generic handlers': cannot tell which function `{ast.unparse(h)}` registers")
+
+    for mod in repo.modules.values():
+        for st in mod.tree.body:
+            if isinstance(st, ast.Expr):
+                direct(mod, st.value, {})
+            elif isinstance(st, ast.For) and isinstance(st.iter, (ast.Tuple, ast.List)) and any(isinstance(x, ast.Attribute) and x.attr == "register_generic" for x in ast.walk(st)):
+                for item in st.iter.elts:
+                    if isinstance(st.target, ast.Name):
+                        env = {st.target.id: item}
+                    elif isinstance(st.target, ast.Tuple) and isinstance(item, (ast.Tuple, ast.List)) and len(item.elts) == len(st.target.elts) and all(isinstance(t, ast.Name) for t in st.target.elts):
+                        env = {t.id: v for t, v in zip(st.target.elts, item.elts)}
+                    else:
+                        raise AnalysisError("anchor 'generic handlers': registration loop not understood")
+                    for b in st.body:
+                        if isinstance(b, ast.Expr):
+                            direct(mod, b.value, env)
     if not out:
         raise AnalysisError("anchor 'generic handlers': no function decorated with register_generic")
     return out
